@@ -36,6 +36,7 @@ class RecClient:
         self.delivered: list[str] = []
         self.last_call_t = time.monotonic()
         self.in_call = 0
+        self.failed_t = None
 
     def checkpoint(self, durable_execution_arn, checkpoint_token, updates, client_token):
         from aws_durable_execution_sdk_python.lambda_service import CheckpointOutput, CheckpointUpdatedExecutionState
@@ -52,6 +53,7 @@ class RecClient:
         if self.fail_at is not None and n == self.fail_at:
             with self.lock:
                 self.in_call -= 1
+                self.failed_t = time.monotonic()
             raise RuntimeError("injected checkpoint failure at call %d" % n)
         with self.lock:
             self.delivered.extend(ids)
@@ -97,9 +99,19 @@ def trial(case):  # noqa: C901, PLR0912, PLR0915
             if threading.current_thread().name == "c05-p1" and not held[0]:
                 held[0] = True
                 t_end = time.monotonic() + 3
-                while consumer_ref[0].is_alive() and time.monotonic() < t_end:
-                    time.sleep(0.002)
-                achieved[0] = not consumer_ref[0].is_alive()
+                rel = case.get("release_after_ms")
+                if rel is None:
+                    while consumer_ref[0].is_alive() and time.monotonic() < t_end:
+                        time.sleep(0.002)
+                    achieved[0] = not consumer_ref[0].is_alive()
+                else:
+                    # released a chosen time after the failing call raised, i.e. somewhere INSIDE the consumer's failure handling
+                    # (which the slow-consumer hook stretches to ~1 ms per statement)
+                    while client.failed_t is None and time.monotonic() < t_end:
+                        time.sleep(0.0002)
+                    while client.failed_t is not None and time.monotonic() < client.failed_t + rel / 1000.0:
+                        time.sleep(0.0001)
+                    achieved[0] = client.failed_t is not None
             return orig_qop(*a, **kw)
 
         m_state.QueuedOperation = parked_qop
@@ -242,6 +254,11 @@ def cases(tier, seed):
         yield {"label": "lost-wakeup-forced", "seed": seed * 77 + i, "max_bytes": 750 * 1024, "max_ops": 250, "window": 0.0, "latency": 0.002,
                "plans": [[(10, True, 0)], [(10, rng.random() < 0.7, 0.0), (5, True, 0)]], "fail_at": 0, "perturb": "none", "hold_put": True,
                "budget": 8}
+    for i in range(40 if tier == "quick" else 400):
+        # the same producer released at a swept instant inside the consumer's failure handling, which is slowed to ~1 ms per statement
+        yield {"label": "lost-wakeup-sweep", "seed": seed * 79 + i, "max_bytes": 750 * 1024, "max_ops": 250, "window": 0.0, "latency": 0.002,
+               "plans": [[(10, True, 0)], [(10, rng.random() < 0.7, 0.0), (5, True, 0)]], "fail_at": 0, "perturb": "slow-consumer", "hold_put": True,
+               "release_after_ms": (i % 40) * 0.75, "budget": 8}
     for i in range(n):
         np_ = rng.choice([1, 1, 2, 3, 4, 8])
         max_bytes = rng.choice([400, 1000, 5000, 750 * 1024])
@@ -278,7 +295,11 @@ def run_case(case):
         return run_insitu(case, PROP)
     from checks.c19 import Yield
 
-    if case["perturb"] == "yield":
+    if case["perturb"] == "slow-consumer":
+        with _SlowConsumer() as yy:
+            viol, verdict, st = trial(case)
+        hits = yy.hits
+    elif case["perturb"] == "yield":
         y = Yield(case["seed"], 0.05)
         # widen the filter to state.py as well
         import checks.c19 as c19mod  # noqa: F401
@@ -344,10 +365,38 @@ class _StateYield:
         sys.setswitchinterval(self.old)
 
 
+class _SlowConsumer(_StateYield):
+    """Every statement the checkpoint thread executes in state.py / threading.py takes ~1 ms (only delays one thread)."""
+
+    def __init__(self):
+        super().__init__(0)
+
+    def __enter__(self):
+        mon = sys.monitoring
+        try:
+            mon.use_tool_id(self.TOOL, "c05-slow")
+        except ValueError:
+            pass
+
+        def on_line(code, line):
+            fn = code.co_filename
+            if not (fn.endswith("aws_durable_execution_sdk_python/state.py") or fn.endswith("aws_durable_execution_sdk_python/threading.py")):
+                return mon.DISABLE
+            if threading.current_thread().name == "c05-consumer":
+                self.hits += 1
+                time.sleep(0.001)
+            return None
+
+        mon.register_callback(self.TOOL, mon.events.LINE, on_line)
+        mon.set_events(self.TOOL, mon.events.LINE)
+        self.old = sys.getswitchinterval()
+        return self
+
+
 RULE = ("real ExecutionState + recording fake service client: 1-8 producer threads issuing scripted mixes of synchronous / asynchronous / empty "
         "checkpoints with sizes from 1 byte to 2x the size limit (incl. an oversize update that is not first in its batch), batcher configs "
         "max_ops in {1,2,3,5,250} x max_bytes in {400,1000,5000,750KB} x window in {0,1,5,50ms,1s}, client latency 0-20 ms, LINE-level yield "
-        "injection in state.py/threading.py, and an injected client failure in 1/6 of the trials. Exact hand-over order is recorded by a "
+        "injection in state.py/threading.py, an injected client failure in 1/6 of the trials, and a sweep in which a producer parked between the failed-check and the enqueue is released 0-30 ms after the failing call raised while the checkpoint thread's failure handling is slowed to ~1 ms per statement. Exact hand-over order is recorded by a "
         "Queue._put override (runs under the queue's own mutex). Oracle: delivered order = hand-over order, no duplicates, nothing handed "
         "over before a returned sync checkpoint is lost or undelivered at its return, token chain, count and size limits (single oversize "
         "update excepted), and bounded release decided logically (closed system quiescent, client idle, producer still inside "
